@@ -888,3 +888,66 @@ Proof.
   apply (rank_sorted_unique l'); [auto|apply self_sorted, HN|apply sort_by_sorted|].
   rewrite sort_by_perm. exact HP.
 Qed.
+
+(* ================================================================ the loop sites never matter in the fragment *)
+Lemma decl_names_of_decls (ds : list decl) :
+  flat_map decl_names (map (fun d => NDecl (fst d) (snd d)) ds) = map fst ds.
+Proof. induction ds as [|d r IH]; cbn; [reflexivity|]. rewrite IH. reflexivity. Qed.
+
+Lemma finish_declares P base o c inner mk x :
+  In x (declared (w_ctx (finish P false base o c inner mk))) ->
+  In x (declared base) \/ In x (flat_map decl_names (w_nodes (finish P false base o c inner mk))).
+Proof.
+  unfold finish. cbn [w_ctx w_nodes declared]. intros H. apply in_app_or in H as [H|H]; [left; exact H|].
+  right. rewrite flat_map_app. apply in_or_app. left. rewrite decl_names_of_decls. exact H.
+Qed.
+
+Lemma walk_stmt_declares P s c x :
+  In x (declared (w_ctx (walk_stmt P false s c))) ->
+  In x (declared c) \/ In x (flat_map decl_names (w_nodes (walk_stmt P false s c))).
+Proof.
+  rewrite walk_stmt_eq. destruct s as [y t|o brs|o body|o v body|o brs]; cbv zeta.
+  - destruct (tmem y (declared c)); cbn; [tauto|].
+    intros H. apply in_app_or in H as [H|[H|[]]]; [left; exact H|right; left; exact H].
+  - apply finish_declares.
+  - apply finish_declares.
+  - apply finish_declares.
+  - apply finish_declares.
+Qed.
+
+Lemma walk_block_declares P l : forall c x,
+  In x (declared (w_ctx (walk_block P l c))) ->
+  In x (declared c) \/ In x (flat_map decl_names (w_nodes (walk_block P l c))).
+Proof.
+  induction l as [|s r IH]; intros c x; cbn [walk_block w_ctx w_nodes].
+  - cbn. tauto.
+  - intros H. rewrite flat_map_app. apply IH in H as [H|H].
+    + apply walk_stmt_declares in H as [H|H]; [left; exact H|right; apply in_or_app; left; exact H].
+    + right. apply in_or_app. right. exact H.
+Qed.
+
+Lemma new_decls_names base child x :
+  In x (map fst (new_decls base child)) -> In x (declared child) /\ ~ In x (declared base).
+Proof.
+  unfold new_decls. rewrite map_map. cbn [fst]. rewrite map_id. intros H.
+  assert (In x (filter (fun x => negb (tmem x (declared base))) (declared child))) as H'
+    by (eapply Permutation_in; [apply sort_perm|exact H]).
+  apply filter_In in H' as [H1 H2]. split; [exact H1|].
+  intros Hb. apply tmem_In in Hb. rewrite Hb in H2. discriminate.
+Qed.
+
+(* the construct the while / for handlers build always satisfies the loop clause of the guard *)
+Lemma loop_guard_holds P body c :
+  guard (CLoop (flat_map decl_names (w_nodes (walk_block P body c))) (new_decls c (w_ctx (walk_block P body c)))) = true.
+Proof.
+  cbn [guard]. apply forallb_forall. intros x Hx. apply tmem_In.
+  apply new_decls_names in Hx as [H1 H2]. apply walk_block_declares in H1 as [H1|H1]; [contradiction|exact H1].
+Qed.
+
+(* hence whatever the oracle does at a loop site is invisible *)
+Lemma loop_site_independent s1 s2 P body c :
+  perm_oracle s1 -> perm_oracle s2 ->
+  let r := walk_block P body c in
+  promote s1 (CLoop (flat_map decl_names (w_nodes r)) (new_decls c (w_ctx r))) =
+  promote s2 (CLoop (flat_map decl_names (w_nodes r)) (new_decls c (w_ctx r))).
+Proof. intros H1 H2 r. apply promote_guarded; auto. apply loop_guard_holds. Qed.
